@@ -301,7 +301,7 @@ func genPipeline(rng *hk.Rand) *progSpec {
 		for a := range p.Attempts {
 			if regime != 0 && rng.Chance(25) && p.Attempts[a].T.Fail == 0 {
 				p.Attempts[a].T.B.UmErr = tg.next()
-				p.Attempts[a].T.B.Body += strings.Repeat(" ", a+1)
+				p.Attempts[a].T.B.Body += strings.Repeat(" ", 7*(a+1)) // unique key for the custom functions' table
 			}
 		}
 	}
